@@ -34,6 +34,7 @@ type target struct {
 	files []string // files to parse (the whole package is not needed: only these are type-checked)
 	funcs []string // functions (or Recv.Method) to translate, in dependency order
 	out   string   // Lean module name under GoSSE.Gen
+	joins bool     // code after an `if` that both branches reach becomes a definition of its own when it is more than one statement
 }
 
 var targets = []target{
@@ -52,6 +53,11 @@ var targets = []target{
 		"Message.appendText", "Message.AppendData", "Message.AppendComment"}, out: "Fields"},
 	{dir: ".", files: []string{"message.go", "message_fields.go"}, funcs: []string{"writeString", "chunk.WriteTo",
 		"Message.writeMessageField", "Message.writeID", "Message.writeType", "Message.writeRetry", "Message.WriteTo"}, out: "Write"},
+	// the replayers: everything of replay.go but the two constructors' use of time.Now
+	{dir: ".", files: []string{"message.go", "message_fields.go", "replay.go", "server.go", "session.go", "joe.go"},
+		funcs: []string{"must", "ID", "Message.Clone", "ensureID", "queue.each", "messageWithTopics.ID", "findIDInQueue",
+			"NewFiniteReplayer", "FiniteReplayer.Put", "FiniteReplayer.Replay",
+			"ValidReplayer.shouldGC", "ValidReplayer.doGC", "ValidReplayer.GC", "ValidReplayer.Put", "ValidReplayer.Replay"}, out: "Replay", joins: true},
 }
 
 func die(pos token.Position, format string, a ...any) {
@@ -85,6 +91,20 @@ type tr struct {
 	sigs           map[string]*fsig
 	usesWriter     bool
 	files          []*ast.File
+	sigmaStructs   map[string]bool       // structs with a MessageWriter inside: structure S (σ : Type)
+	extraTy        map[*types.Var]string // Lean types of synthetic variables (the accumulator of an iterator)
+	yieldVar       *types.Var            // in an iterator: the yield parameter …
+	accVar         *types.Var            // … and the state threaded through it
+	dicts          []dictParam           // method dictionaries of the current generic function's type parameters
+	inClosure      bool
+	joins          bool
+	rebound        map[*types.Var]bool // pointer parameters assigned as a whole: plain inputs, not in/out
+}
+
+// dictParam: a method the constraint of a type parameter demands, passed as a function
+type dictParam struct {
+	tp, method, leanType string
+	tpIndex              int
 }
 
 // fsig: how a translated function is called — results first, then the in/out values it hands back
@@ -94,6 +114,11 @@ type fsig struct {
 	recvMod  bool   // … and possibly changed
 	paramIO  []bool // per parameter: in/out (pointer, io.Writer)
 	paramMod []bool
+	resNil   []bool // per result: an Option (a pointer or slice that may be nil)
+	paramNil []bool // per parameter: an Option
+	iter     bool   // an iterator: called as f(args…)(func literal)
+	dicts    []dictParam
+	spread   int // number of parameters (for f(g()) with a multi-valued g)
 }
 
 func (t *tr) pos(n ast.Node) token.Position { return t.fset.Position(n.Pos()) }
@@ -138,8 +163,13 @@ func (t *tr) leanType(ty types.Type, at ast.Node) string {
 			t.usesWriter = true
 			return "(Writer σ)" // any writer: a state and a transition function
 		}
-		if u.Obj().Pkg() != nil && u.Obj().Pkg().Path() == "time" && u.Obj().Name() == "Duration" {
-			return "Int"
+		if u.Obj().Pkg() != nil && u.Obj().Pkg().Path() == "time" && (u.Obj().Name() == "Duration" || u.Obj().Name() == "Time") {
+			return "Int" // a Duration in nanoseconds; a Time as nanoseconds since the zero Time (GoRT: the time assumptions)
+		}
+		if u.Obj().Pkg() == t.pkg && u.Obj().Name() == "MessageWriter" {
+			if _, isIface := u.Underlying().(*types.Interface); isIface {
+				return "(MsgWriter Message σ)" // any subscriber: a state and what Send / Flush answer and become
+			}
 		}
 		if u.Obj().Pkg() != nil && u.Obj().Pkg().Path() == "bufio" && u.Obj().Name() == "SplitFunc" {
 			return "(Bytes → Bool → GoM (Int × (Option Bytes) × (Option String)))"
@@ -168,6 +198,10 @@ func (t *tr) leanType(ty types.Type, at ast.Node) string {
 				return "(" + name + " " + strings.Join(args, " ") + ")"
 			}
 			t.structs[name] = st
+			if t.hasSigma(st, map[*types.Struct]bool{}) {
+				t.sigmaStructs[name] = true
+				return "(" + name + " σ)"
+			}
 			return name
 		}
 		if u.Obj().Name() == "error" {
@@ -180,6 +214,8 @@ func (t *tr) leanType(ty types.Type, at ast.Node) string {
 			return "Int"
 		case types.Uint8, types.UntypedRune:
 			return "UInt8"
+		case types.Uint64:
+			return "UInt64"
 		case types.Bool, types.UntypedBool:
 			return "Bool"
 		case types.String, types.UntypedString:
@@ -195,7 +231,15 @@ func (t *tr) leanType(ty types.Type, at ast.Node) string {
 			return "Bytes" // a fixed-size byte array, as a list of that length
 		}
 	case *types.Pointer:
+		if _, basic := u.Elem().Underlying().(*types.Basic); basic {
+			return "(Option " + t.leanType(u.Elem(), at) + ")" // *uint64: nil or a cell
+		}
 		return t.leanType(u.Elem(), at)
+	case *types.Signature:
+		// a function value without parameters (ValidReplayer.Now): a computation
+		if u.Params().Len() == 0 && u.Results().Len() == 1 {
+			return "(GoM " + t.leanType(u.Results().At(0).Type(), at) + ")"
+		}
 	case *types.Interface:
 		if ty.String() == "error" {
 			return "(Option String)"
@@ -205,7 +249,40 @@ func (t *tr) leanType(ty types.Type, at ast.Node) string {
 	return ""
 }
 
+// hasSigma: the struct holds a MessageWriter (directly or in a nested struct)
+func (t *tr) hasSigma(st *types.Struct, seen map[*types.Struct]bool) bool {
+	if seen[st] {
+		return false
+	}
+	seen[st] = true
+	for i := 0; i < st.NumFields(); i++ {
+		ft := st.Field(i).Type()
+		if n, ok := ft.(*types.Named); ok {
+			if n.Obj().Pkg() == t.pkg && n.Obj().Name() == "MessageWriter" {
+				return true
+			}
+			if s2, ok := n.Underlying().(*types.Struct); ok && t.hasSigma(s2, seen) {
+				return true
+			}
+		}
+	}
+	return false
+}
+
+// fieldType: the Lean type of a struct field — a pointer to a struct is nil or a value there
+func (t *tr) fieldType(f *types.Var, at ast.Node) string {
+	if p, ok := f.Type().(*types.Pointer); ok {
+		if _, basic := p.Elem().Underlying().(*types.Basic); !basic {
+			return "(Option " + t.leanType(p.Elem(), at) + ")"
+		}
+	}
+	return t.leanType(f.Type(), at)
+}
+
 func (t *tr) varType(v *types.Var, at ast.Node) string {
+	if ty, ok := t.extraTy[v]; ok {
+		return ty
+	}
 	ty := t.leanType(v.Type(), at)
 	if t.nilable[v] {
 		return "(Option " + ty + ")"
@@ -217,9 +294,17 @@ func (t *tr) zero(ty types.Type, at ast.Node) string {
 	if arr, ok := ty.Underlying().(*types.Array); ok {
 		return fmt.Sprintf("(List.replicate %d (0 : UInt8))", arr.Len())
 	}
+	if _, ok := ty.(*types.Pointer); ok {
+		return "none"
+	}
+	if _, ok := ty.Underlying().(*types.Signature); ok {
+		return "(throw (Fault.panic \"nil function\"))"
+	}
 	switch t.leanType(ty, at) {
 	case "Int":
 		return "(0 : Int)"
+	case "UInt64":
+		return "(0 : UInt64)"
 	case "UInt8":
 		return "(0 : UInt8)"
 	case "Bool":
@@ -305,7 +390,14 @@ func (t *tr) structLit(n *types.Named, st *types.Struct, vals map[string]string,
 		}
 		fs = append(fs, fieldName(f.Name())+" := "+v)
 	}
-	return "({ " + strings.Join(fs, ", ") + " } : " + n.Obj().Name() + ")"
+	tyName := n.Obj().Name()
+	if t.sigmaStructs[tyName] {
+		tyName += " σ"
+	}
+	if n.TypeArgs().Len() > 0 {
+		tyName = strings.Trim(t.leanType(n, at), "()")
+	}
+	return "({ " + strings.Join(fs, ", ") + " } : " + tyName + ")"
 }
 
 func bytesLit(s string) string {
@@ -391,7 +483,7 @@ func (t *tr) expr(e *em, x ast.Expr) string {
 	case *ast.SelectorExpr:
 		// field of the receiver / an in-out struct
 		if sel, ok := t.info.Selections[v]; ok && sel.Kind() == types.FieldVal {
-			return "(" + t.expr(e, v.X) + ")." + fieldName(v.Sel.Name)
+			return t.derefIfOpt(e, v.X) + t.embedPath(sel) + "." + fieldName(v.Sel.Name)
 		}
 		// pkg.ErrX: an error value of another package is identified by its qualified name
 		if id, ok := v.X.(*ast.Ident); ok {
@@ -408,6 +500,9 @@ func (t *tr) expr(e *em, x ast.Expr) string {
 			return "(!" + t.expr(e, v.X) + ")"
 		case token.SUB:
 			return "(-" + t.expr(e, v.X) + ")"
+		case token.AND:
+			// &T{…}: the value; &place (an argument handed in and back): the place's value
+			return t.expr(e, v.X)
 		}
 		die(t.pos(x), "unary %s", v.Op)
 	case *ast.BinaryExpr:
@@ -455,11 +550,11 @@ func (t *tr) expr(e *em, x ast.Expr) string {
 			if lt == "Bytes" {
 				return "(" + l + " ++ " + r + ")"
 			}
-			if lt == "Int" || lt == "UInt8" {
+			if lt == "Int" || lt == "UInt8" || lt == "UInt64" {
 				return "(" + l + " + " + r + ")"
 			}
 		case token.SUB:
-			if lt == "Int" {
+			if lt == "Int" || lt == "UInt64" { // (uint64: modulo 2^64, as in Go)
 				return "(" + l + " - " + r + ")"
 			}
 		case token.MUL:
@@ -483,8 +578,9 @@ func (t *tr) expr(e *em, x ast.Expr) string {
 		e.line("let %s ← idx %s %s", n, s, i)
 		return n
 	case *ast.SliceExpr:
-		if v.Slice3 {
-			die(t.pos(x), "3-index slice")
+		if v.Slice3 && (v.High == nil || types.ExprString(v.Max) != types.ExprString(v.High)) {
+			// s[a:b:b] only limits the capacity: the value is s[a:b] (capacities are not part of a value here)
+			die(t.pos(x), "3-index slice whose capacity bound differs from its length bound")
 		}
 		s := t.expr(e, v.X)
 		n := t.fresh("s")
@@ -509,12 +605,21 @@ func (t *tr) expr(e *em, x ast.Expr) string {
 			die(t.pos(x), "composite literal of %s", n)
 		}
 		vals := map[string]string{}
-		for i, el := range v.Elts {
-			if kv, ok := el.(*ast.KeyValueExpr); ok {
-				vals[kv.Key.(*ast.Ident).Name] = t.expr(e, kv.Value)
-			} else {
-				vals[st.Field(i).Name()] = t.expr(e, el)
+		fieldByName := func(name string) *types.Var {
+			for i := 0; i < st.NumFields(); i++ {
+				if st.Field(i).Name() == name {
+					return st.Field(i)
+				}
 			}
+			return nil
+		}
+		for i, el := range v.Elts {
+			f, val := st.Field(i), el
+			if kv, ok := el.(*ast.KeyValueExpr); ok {
+				f, val = fieldByName(kv.Key.(*ast.Ident).Name), kv.Value
+			}
+			_, ptrField := f.Type().(*types.Pointer)
+			vals[f.Name()] = t.optExpr(e, val, ptrField)
 		}
 		return t.structLit(n, st, vals, x)
 	case *ast.StarExpr:
@@ -522,12 +627,80 @@ func (t *tr) expr(e *em, x ast.Expr) string {
 		if c, ok := v.X.(*ast.CallExpr); ok && types.ExprString(c.Fun) == "new" && len(c.Args) == 1 {
 			return t.zero(t.info.Types[c.Args[0]].Type, x)
 		}
+		// *p of a pointer to a basic value (nil or a cell)
+		if pt, ok := t.info.Types[v.X].Type.(*types.Pointer); ok {
+			if _, basic := pt.Elem().Underlying().(*types.Basic); basic {
+				n := t.fresh("d")
+				e.line("let %s ← derefPtr %s", n, t.expr(e, v.X))
+				return n
+			}
+		}
 		die(t.pos(x), "dereference %s", types.ExprString(x))
 	case *ast.CallExpr:
 		return t.call(e, v)
 	}
 	die(t.pos(x), "expression %T %s", x, types.ExprString(x))
 	return ""
+}
+
+// isOptPtr: x is a pointer to a struct that is represented as an Option — a pointer-typed struct field, or a variable
+// that may hold nil
+func (t *tr) isOptPtr(x ast.Expr) bool {
+	tv, ok := t.info.Types[x]
+	if !ok {
+		return false
+	}
+	pt, ok := tv.Type.(*types.Pointer)
+	if !ok {
+		return false
+	}
+	if _, basic := pt.Elem().Underlying().(*types.Basic); basic {
+		return false
+	}
+	switch d := x.(type) {
+	case *ast.ParenExpr:
+		return t.isOptPtr(d.X)
+	case *ast.SelectorExpr:
+		s, ok := t.info.Selections[d]
+		return ok && s.Kind() == types.FieldVal
+	case *ast.Ident:
+		o, ok := t.info.Uses[d].(*types.Var)
+		return ok && t.nilable[o]
+	}
+	return false
+}
+
+// derefIfOpt: x as a struct value, through a nil check when x is such a pointer
+func (t *tr) derefIfOpt(e *em, x ast.Expr) string {
+	base := t.expr(e, x)
+	if t.isOptPtr(x) {
+		n := t.fresh("p")
+		e.line("let %s ← derefPtr %s", n, base)
+		return n
+	}
+	return "(" + base + ")"
+}
+
+// embedPath: the embedded fields a promoted field or method is reached through
+func (t *tr) embedPath(sel *types.Selection) string {
+	ix := sel.Index()
+	if len(ix) <= 1 {
+		return ""
+	}
+	cur := sel.Recv()
+	out := ""
+	for _, i := range ix[:len(ix)-1] {
+		if p, ok := cur.(*types.Pointer); ok {
+			cur = p.Elem()
+		}
+		st, ok := cur.Underlying().(*types.Struct)
+		if !ok {
+			return out
+		}
+		out += "." + fieldName(st.Field(i).Name())
+		cur = st.Field(i).Type()
+	}
+	return out
 }
 
 func (t *tr) call(e *em, v *ast.CallExpr) string {
@@ -544,13 +717,52 @@ func (t *tr) call(e *em, v *ast.CallExpr) string {
 		if from == "UInt8" && to == "Int" {
 			return "((" + t.expr(e, v.Args[0]) + ").toNat : Int)"
 		}
+		if from == "Int" && to == "UInt64" {
+			return "(u64OfInt " + t.expr(e, v.Args[0]) + ")" // modulo 2^64
+		}
+		if from == "UInt64" && to == "Int" {
+			return "(intOfU64 " + t.expr(e, v.Args[0]) + ")" // two's complement
+		}
 		if from != to {
 			die(t.pos(v), "conversion %s → %s", from, to)
 		}
 		return t.expr(e, v.Args[0])
 	}
+	// an iterator applied to a function literal: q.each(i)(func(j int, m T) bool { … })
+	if inner, ok := v.Fun.(*ast.CallExpr); ok {
+		return t.iterCall(e, inner, v)
+	}
+	// inside an iterator: yield(a, b) threads the accumulated state of the function literal it stands for
+	if id, ok := v.Fun.(*ast.Ident); ok && t.yieldVar != nil && t.info.Uses[id] == types.Object(t.yieldVar) {
+		args := []string{"yield"}
+		for _, a := range v.Args {
+			args = append(args, t.expr(e, a))
+		}
+		y := t.fresh("y")
+		e.line("let %s ← %s %s", y, strings.Join(args, " "), t.nameOf(t.accVar))
+		e.line("let %s := %s.2", t.nameOf(t.accVar), y)
+		return y + ".1"
+	}
+	if r, ok := t.specialMethod(e, v); ok {
+		return r
+	}
 	name := types.ExprString(v.Fun)
 	switch name {
+	case "new":
+		if len(v.Args) == 1 {
+			if b, ok := t.info.Types[v.Args[0]].Type.Underlying().(*types.Basic); ok {
+				return "(some " + t.zero(b, v) + ")"
+			}
+		}
+	case "strconv.ParseUint":
+		// base 10, 64 bits only
+		if len(v.Args) == 3 && t.isConstInt(v.Args[1], 10) && t.isConstInt(v.Args[2], 64) {
+			return "(strconvParseUint " + t.expr(e, v.Args[0]) + ")"
+		}
+	case "strconv.FormatUint":
+		if len(v.Args) == 2 && t.isConstInt(v.Args[1], 10) {
+			return "(strconvFormatUint " + t.expr(e, v.Args[0]) + ")"
+		}
 	case "len":
 		return "(len " + t.expr(e, v.Args[0]) + ")"
 	case "min":
@@ -709,16 +921,230 @@ func (t *tr) call(e *em, v *ast.CallExpr) string {
 	if !t.known[fn] {
 		die(t.pos(v), "call of %s (not translated)", name)
 	}
-	if t.hasWriterArg(v) {
+	if fs := t.sigs[fn]; t.hasWriterArg(v) || (fs != nil && fs.anyIO()) {
 		return t.genericCall(e, fn, nil, v)
 	}
-	args := []string{"fuel"}
-	for _, a := range v.Args {
-		args = append(args, t.expr(e, a))
-	}
+	args := append([]string{"fuel"}, t.dictArgs(v, t.sigs[fn])...)
+	args = append(args, t.argList(e, t.sigs[fn], v.Args)...)
 	n := t.fresh("r")
 	e.line("let %s ← %s %s", n, fn, strings.Join(args, " "))
 	return n
+}
+
+func (fs *fsig) anyIO() bool {
+	for _, b := range fs.paramIO {
+		if b {
+			return true
+		}
+	}
+	return false
+}
+
+func (t *tr) isConstInt(x ast.Expr, want int64) bool {
+	tv, ok := t.info.Types[x]
+	if !ok || tv.Value == nil {
+		return false
+	}
+	n, exact := constant.Int64Val(tv.Value)
+	return exact && n == want
+}
+
+func tupleProj(r string, i, n int) string {
+	if n == 1 {
+		return r
+	}
+	p := r
+	for j := 0; j < i; j++ {
+		p += ".2"
+	}
+	if i < n-1 {
+		p += ".1"
+	}
+	return p
+}
+
+// argList: the arguments of a call of a translated function: f(g()) with a multi-valued g is spread, &place is the
+// place's value, and a pointer that may be nil is wrapped or checked according to what the callee takes
+func (t *tr) argList(e *em, fs *fsig, args []ast.Expr) []string {
+	if fs != nil && len(args) == 1 && fs.spread > 1 {
+		if c, ok := args[0].(*ast.CallExpr); ok {
+			if tup, ok := t.info.Types[c].Type.(*types.Tuple); ok && tup.Len() == fs.spread {
+				r := t.expr(e, c)
+				var out []string
+				for i := 0; i < tup.Len(); i++ {
+					out = append(out, tupleProj(r, i, tup.Len()))
+				}
+				return out
+			}
+		}
+	}
+	var out []string
+	for i, a := range args {
+		out = append(out, t.argExpr(e, a, fs != nil && i < len(fs.paramNil) && fs.paramNil[i]))
+	}
+	return out
+}
+
+func stripAddr(a ast.Expr) ast.Expr {
+	if u, ok := a.(*ast.UnaryExpr); ok && u.Op == token.AND {
+		if _, lit := u.X.(*ast.CompositeLit); !lit {
+			return u.X
+		}
+	}
+	return a
+}
+
+func (t *tr) argExpr(e *em, a ast.Expr, wantOpt bool) string {
+	a = stripAddr(a)
+	if wantOpt {
+		return t.optExpr(e, a, true)
+	}
+	if t.isOptPtr(a) {
+		// a pointer that may be nil handed to a callee that takes a plain value: nil panics here, where Go would
+		// panic at the callee's first dereference (stricter than Go)
+		n := t.fresh("p")
+		e.line("let %s ← derefPtr %s", n, t.expr(e, a))
+		return n
+	}
+	return t.expr(e, a)
+}
+
+// dictArgs: the method dictionaries a generic callee takes, for the type arguments of this call
+func (t *tr) dictArgs(v *ast.CallExpr, fs *fsig) []string {
+	if fs == nil || len(fs.dicts) == 0 {
+		return nil
+	}
+	id, ok := v.Fun.(*ast.Ident)
+	if !ok {
+		die(t.pos(v), "generic call through %s", types.ExprString(v.Fun))
+	}
+	inst, ok := t.info.Instances[id]
+	if !ok {
+		die(t.pos(v), "type arguments of %s unknown", id.Name)
+	}
+	var out []string
+	for _, d := range fs.dicts {
+		ta := inst.TypeArgs.At(d.tpIndex)
+		if tp, isTP := ta.(*types.TypeParam); isTP {
+			out = append(out, tp.Obj().Name()+"_"+d.method) // passed on from our own dictionary
+			continue
+		}
+		obj, index, _ := types.LookupFieldOrMethod(ta, true, t.pkg, d.method)
+		fn, ok := obj.(*types.Func)
+		if !ok {
+			die(t.pos(v), "method %s of %s", d.method, ta)
+		}
+		rt := fn.Type().(*types.Signature).Recv().Type()
+		if p, ok := rt.(*types.Pointer); ok {
+			rt = p.Elem()
+		}
+		mname := rt.(*types.Named).Obj().Name() + "_" + d.method
+		if !t.known[mname] {
+			die(t.pos(v), "method %s (not translated)", mname)
+		}
+		path := ""
+		cur := ta
+		for _, i := range index[:len(index)-1] {
+			st := cur.Underlying().(*types.Struct)
+			path += "." + fieldName(st.Field(i).Name())
+			cur = st.Field(i).Type()
+		}
+		if path == "" {
+			out = append(out, mname)
+		} else {
+			out = append(out, fmt.Sprintf("(fun fuel x => %s fuel (x)%s)", mname, path))
+		}
+	}
+	return out
+}
+
+// specialMethod: method calls that are not calls of translated functions — on a type parameter (through its method
+// dictionary), on a time.Time, on a MessageWriter — and promoted methods of translated types
+func (t *tr) specialMethod(e *em, v *ast.CallExpr) (string, bool) {
+	sel, ok := v.Fun.(*ast.SelectorExpr)
+	if !ok {
+		return "", false
+	}
+	sl, ok := t.info.Selections[sel]
+	if !ok || sl.Kind() != types.MethodVal {
+		return "", false
+	}
+	recvT := sl.Recv()
+	if p, ok := recvT.(*types.Pointer); ok {
+		recvT = p.Elem()
+	}
+	if tp, ok := recvT.(*types.TypeParam); ok {
+		args := []string{tp.Obj().Name() + "_" + sel.Sel.Name, "fuel", t.expr(e, sel.X)}
+		for _, a := range v.Args {
+			args = append(args, t.expr(e, a))
+		}
+		n := t.fresh("m")
+		e.line("let %s ← %s", n, strings.Join(args, " "))
+		return n, true
+	}
+	n, ok := recvT.(*types.Named)
+	if !ok {
+		return "", false
+	}
+	if n.Obj().Pkg() != nil && n.Obj().Pkg().Path() == "time" && n.Obj().Name() == "Time" {
+		x := t.expr(e, sel.X)
+		switch sel.Sel.Name {
+		case "IsZero":
+			return "(" + x + " == (0 : Int))", true
+		case "Sub":
+			return "(" + x + " - " + t.expr(e, v.Args[0]) + ")", true
+		case "Add":
+			return "(" + x + " + " + t.expr(e, v.Args[0]) + ")", true
+		case "After":
+			return "(decide (" + x + " > " + t.expr(e, v.Args[0]) + "))", true
+		case "Before":
+			return "(decide (" + x + " < " + t.expr(e, v.Args[0]) + "))", true
+		}
+		die(t.pos(v), "time.Time.%s", sel.Sel.Name)
+	}
+	if n.Obj().Pkg() == t.pkg && n.Obj().Name() == "MessageWriter" {
+		w := t.expr(e, sel.X)
+		r := t.fresh("w")
+		switch sel.Sel.Name {
+		case "Send":
+			e.line("let %s := (%s).send (%s).st %s", r, w, w, t.optExpr(e, v.Args[0], true))
+		case "Flush":
+			e.line("let %s := (%s).flush (%s).st", r, w, w)
+		default:
+			die(t.pos(v), "MessageWriter.%s", sel.Sel.Name)
+		}
+		t.assignTo(e, sel.X, "{ "+w+" with st := "+r+".2 }", false)
+		return r + ".1", true
+	}
+	// a promoted method: declared on an embedded struct
+	if ix := sl.Index(); len(ix) > 1 {
+		fn := sl.Obj().(*types.Func)
+		rt := fn.Type().(*types.Signature).Recv().Type()
+		if p, ok := rt.(*types.Pointer); ok {
+			rt = p.Elem()
+		}
+		mname := rt.(*types.Named).Obj().Name() + "_" + sel.Sel.Name
+		if !t.known[mname] {
+			die(t.pos(v), "call of %s (not translated)", mname)
+		}
+		fs := t.sigs[mname]
+		if fs.recvMod {
+			die(t.pos(v), "promoted method %s changes its receiver", mname)
+		}
+		args := []string{"fuel", t.derefIfOpt(e, sel.X) + t.embedPath(sl)}
+		args = append(args, t.argList(e, fs, v.Args)...)
+		m := t.fresh("m")
+		e.line("let %s ← %s %s", m, mname, strings.Join(args, " "))
+		comps := fs.nres
+		if fs.recvIO {
+			comps++
+		}
+		if fs.nres == 1 {
+			return tupleProj(m, 0, comps), true
+		}
+		die(t.pos(v), "promoted method with %d results", fs.nres)
+	}
+	return "", false
 }
 
 func (t *tr) hasWriterArg(v *ast.CallExpr) bool {
@@ -740,7 +1166,7 @@ func (t *tr) genericCall(e *em, callee string, recv ast.Expr, v *ast.CallExpr) s
 	if fs == nil {
 		die(t.pos(v), "call of %s (signature unknown)", callee)
 	}
-	args := []string{"fuel"}
+	args := append([]string{"fuel"}, t.dictArgs(v, fs)...)
 	type back struct {
 		x   ast.Expr
 		mod bool
@@ -752,10 +1178,10 @@ func (t *tr) genericCall(e *em, callee string, recv ast.Expr, v *ast.CallExpr) s
 			backs = append(backs, back{recv, fs.recvMod})
 		}
 	}
+	args = append(args, t.argList(e, fs, v.Args)...)
 	for i, a := range v.Args {
-		args = append(args, t.expr(e, a))
 		if i < len(fs.paramIO) && fs.paramIO[i] {
-			backs = append(backs, back{a, fs.paramMod[i]})
+			backs = append(backs, back{stripAddr(a), fs.paramMod[i]})
 		}
 	}
 	n := t.fresh("m")
@@ -948,6 +1374,9 @@ func (t *tr) retTuple(vals []string) string {
 }
 
 func (t *tr) emitReturn(e *em, lc *loopCtx, vals []string) {
+	if t.inClosure && len(t.inouts) == 0 {
+		vals = append(append([]string{}, vals...), "()") // the literal assigns nothing outside itself: its state is Unit
+	}
 	if lc != nil {
 		e.line("pure (Step.ret %s)", t.retTuple(vals))
 	} else {
@@ -1003,17 +1432,39 @@ func (t *tr) assignTo(e *em, lhs ast.Expr, val string, define bool) {
 		}
 		v := o.(*types.Var)
 		e.line("let %s : %s := %s", t.nameOf(o), t.varType(v, lhs), val)
+	case *ast.ParenExpr:
+		t.assignTo(e, l.X, val, define)
 	case *ast.SelectorExpr:
 		// field of an in/out struct: functional update
 		base, ok := l.X.(*ast.Ident)
 		if !ok {
-			die(t.pos(lhs), "assignment to %s", types.ExprString(lhs))
+			// x.a.b = v: x.a is replaced by itself with b updated
+			if sl, ok := t.info.Selections[l]; !ok || len(sl.Index()) > 1 || t.isOptPtr(l.X) {
+				die(t.pos(lhs), "assignment to %s", types.ExprString(lhs))
+			}
+			inner := &em{}
+			cur := t.expr(inner, l.X)
+			if inner.sb.Len() > 0 {
+				die(t.pos(lhs), "assignment to %s", types.ExprString(lhs))
+			}
+			t.assignTo(e, l.X, fmt.Sprintf("{ %s with %s := %s }", cur, fieldName(l.Sel.Name), val), false)
+			return
+		}
+		if sl, ok := t.info.Selections[l]; ok && len(sl.Index()) > 1 {
+			die(t.pos(lhs), "assignment to the promoted field %s", types.ExprString(lhs))
 		}
 		o := t.info.Uses[base]
 		n := t.nameOf(o)
 		e.line("let %s := { %s with %s := %s }", n, n, fieldName(l.Sel.Name), val)
 	case *ast.StarExpr:
 		// *p = v where p is a pointer receiver / parameter: the in/out value is replaced
+		if pt, ok := t.info.Types[l.X].Type.(*types.Pointer); ok {
+			if _, basic := pt.Elem().Underlying().(*types.Basic); basic {
+				// a cell: p stays the same pointer, its content changes (p is not nil here: *p was evaluated)
+				t.assignTo(e, l.X, "(some "+val+")", false)
+				return
+			}
+		}
 		id, ok := l.X.(*ast.Ident)
 		if !ok {
 			die(t.pos(lhs), "assignment to %s", types.ExprString(lhs))
@@ -1037,6 +1488,11 @@ func (t *tr) optExpr(e *em, x ast.Expr, wantOpt bool) string {
 	if !wantOpt {
 		if id, ok := x.(*ast.Ident); ok {
 			if o, ok := t.info.Uses[id].(*types.Var); ok && t.nilable[o] {
+				if _, isPtr := o.Type().(*types.Pointer); isPtr {
+					n := t.fresh("p")
+					e.line("let %s ← derefPtr %s", n, t.nameOf(o))
+					return n
+				}
 				die(t.pos(x), "a possibly-nil slice used where a plain one is expected")
 			}
 		}
@@ -1049,6 +1505,9 @@ func (t *tr) optExpr(e *em, x ast.Expr, wantOpt bool) string {
 		if o, ok := t.info.Uses[id].(*types.Var); ok && t.nilable[o] {
 			return t.nameOf(o)
 		}
+	}
+	if t.isOptPtr(x) {
+		return t.expr(e, x) // a pointer-typed field: an Option already
 	}
 	return "(some " + t.expr(e, x) + ")"
 }
@@ -1205,6 +1664,24 @@ func (t *tr) assigned(n ast.Node) []*types.Var {
 			mark(ix.X)
 			return
 		}
+		if u, ok := x.(*ast.UnaryExpr); ok && u.Op == token.AND {
+			mark(u.X)
+			return
+		}
+		if pe, ok := x.(*ast.ParenExpr); ok {
+			mark(pe.X)
+			return
+		}
+		if st, ok := x.(*ast.StarExpr); ok {
+			mark(st.X)
+			return
+		}
+		if sel, ok := x.(*ast.SelectorExpr); ok {
+			if _, isIdent := sel.X.(*ast.Ident); !isIdent {
+				mark(sel.X) // x.a.b: x
+				return
+			}
+		}
 		mark0(x)
 	}
 	ast.Inspect(n, func(m ast.Node) bool {
@@ -1216,6 +1693,10 @@ func (t *tr) assigned(n ast.Node) []*types.Var {
 		case *ast.IncDecStmt:
 			mark(v.X)
 		case *ast.CallExpr:
+			// yield(…) advances the state threaded through an iterator
+			if id, ok := v.Fun.(*ast.Ident); ok && t.yieldVar != nil && t.info.Uses[id] == types.Object(t.yieldVar) {
+				set[t.accVar] = true
+			}
 			// a method call on the receiver, or a pointer argument, may change it
 			if sel, ok := v.Fun.(*ast.SelectorExpr); ok {
 				if s, ok := t.info.Selections[sel]; ok && s.Kind() == types.MethodVal {
@@ -1236,11 +1717,16 @@ func (t *tr) assigned(n ast.Node) []*types.Var {
 	var out []*types.Var
 	for v := range set {
 		// declared outside n
-		if v.Pos() < n.Pos() || v.Pos() >= n.End() {
+		if v == t.accVar || v.Pos() < n.Pos() || v.Pos() >= n.End() {
 			out = append(out, v)
 		}
 	}
-	sort.Slice(out, func(i, j int) bool { return out[i].Pos() < out[j].Pos() })
+	sort.Slice(out, func(i, j int) bool {
+		if (out[i] == t.accVar) != (out[j] == t.accVar) {
+			return out[j] == t.accVar // the accumulator last
+		}
+		return out[i].Pos() < out[j].Pos()
+	})
 	return out
 }
 
@@ -1480,7 +1966,7 @@ func (t *tr) joinPoint(v *ast.IfStmt, k *kont, lc *loopCtx) *kont {
 		}
 	}
 	cont := contStmts(k)
-	if falls < 2 || !hasLoop(cont) {
+	if falls < 2 || !(hasLoop(cont) || (t.joins && len(cont) >= 2 && !t.inClosure)) {
 		return k
 	}
 	// the variables the continuation uses: those of its statements that are declared before it, the terminal's
@@ -1539,7 +2025,7 @@ func (t *tr) joinPoint(v *ast.IfStmt, k *kont, lc *loopCtx) *kont {
 	var decl, args []string
 	for _, o := range vars {
 		ty := t.varType(o, v)
-		if _, isPtr := o.Type().(*types.Pointer); isPtr {
+		if _, isPtr := o.Type().(*types.Pointer); isPtr && !t.nilable[o] {
 			ty = t.leanType(o.Type(), v)
 		}
 		decl = append(decl, fmt.Sprintf("(%s : %s)", t.nameOf(o), ty))
@@ -1669,7 +2155,7 @@ func (t *tr) loop(e *em, inner *loopCtx, cond ast.Expr, rng *ast.RangeStmt, body
 		}
 		caps = append(caps, t.nameOf(v))
 		ty := t.varType(v, body)
-		if _, isPtr := v.Type().(*types.Pointer); isPtr {
+		if _, isPtr := v.Type().(*types.Pointer); isPtr && !t.nilable[v] {
 			ty = t.leanType(v.Type(), body)
 		}
 		capDecl = append(capDecl, fmt.Sprintf("(%s : %s)", t.nameOf(v), ty))
@@ -1762,7 +2248,11 @@ func (t *tr) rho() string {
 		tys = append(tys, t.varType(r, nil))
 	}
 	for _, v := range t.inouts {
-		tys = append(tys, t.leanType(v.Type(), nil))
+		if ty, ok := t.extraTy[v]; ok {
+			tys = append(tys, ty)
+		} else {
+			tys = append(tys, t.leanType(v.Type(), nil))
+		}
 	}
 	if len(tys) == 0 {
 		return "Unit"
@@ -1774,7 +2264,17 @@ func (t *tr) rho() string {
 
 func (t *tr) findNilable(fd *ast.FuncDecl, sig *types.Signature) {
 	// a slice-typed result or local that is given the literal nil somewhere is an Option
-	isSlice := func(v *types.Var) bool { _, ok := v.Type().Underlying().(*types.Slice); return ok }
+	isSlice := func(v *types.Var) bool {
+		if _, ok := v.Type().Underlying().(*types.Slice); ok {
+			return true
+		}
+		// a pointer to a struct that is given nil somewhere (a pointer to a basic value is an Option anyway)
+		if p, ok := v.Type().(*types.Pointer); ok {
+			_, basic := p.Elem().Underlying().(*types.Basic)
+			return !basic
+		}
+		return false
+	}
 	ast.Inspect(fd.Body, func(n ast.Node) bool {
 		switch v := n.(type) {
 		case *ast.ReturnStmt:
@@ -1795,6 +2295,22 @@ func (t *tr) findNilable(fd *ast.FuncDecl, sig *types.Signature) {
 				}
 			}
 		case *ast.AssignStmt:
+			// x, err := f(…) where f's result may be nil
+			if len(v.Rhs) == 1 {
+				if c, ok := v.Rhs[0].(*ast.CallExpr); ok {
+					if id, ok := c.Fun.(*ast.Ident); ok {
+						if fs := t.sigs[id.Name]; fs != nil {
+							for i, l := range v.Lhs {
+								if li, ok := l.(*ast.Ident); ok && i < len(fs.resNil) && fs.resNil[i] {
+									if o, ok := t.info.ObjectOf(li).(*types.Var); ok {
+										t.nilable[o] = true
+									}
+								}
+							}
+						}
+					}
+				}
+			}
 			for i, r := range v.Rhs {
 				if id, ok := r.(*ast.Ident); ok && id.Name == "nil" && i < len(v.Lhs) {
 					if l, ok := v.Lhs[i].(*ast.Ident); ok {
@@ -1811,8 +2327,17 @@ func (t *tr) findNilable(fd *ast.FuncDecl, sig *types.Signature) {
 
 // isIO: a parameter that is handed in and back: a pointer, or an io.Writer (whose state advances)
 func (t *tr) isIO(v *types.Var) bool {
+	if t.rebound[v] {
+		return false
+	}
 	if _, ok := v.Type().(*types.Pointer); ok {
 		return true
+	}
+	// a struct with a MessageWriter inside: the subscriber's state advances
+	if n, ok := v.Type().(*types.Named); ok {
+		if st, ok := n.Underlying().(*types.Struct); ok && t.hasSigma(st, map[*types.Struct]bool{}) {
+			return true
+		}
 	}
 	if n, ok := v.Type().(*types.Named); ok && n.Obj().Pkg() != nil && n.Obj().Pkg().Path() == "io" && n.Obj().Name() == "Writer" {
 		return true
@@ -1833,8 +2358,109 @@ func (t *tr) function(out *em, fd *ast.FuncDecl, leanName string) {
 		dest.sb.WriteString(body.sb.String())
 	}(out)
 	t.results, t.inouts, t.recv = nil, nil, nil
+	t.yieldVar, t.accVar, t.dicts, t.inClosure = nil, nil, nil, false
+	t.extraTy = map[*types.Var]string{}
+	t.rebound = map[*types.Var]bool{}
+	body := fd.Body.List
+
+	// an iterator: func (…) each(…) func(yield func(A, B) bool) { return func(yield …) { body } } is translated as its
+	// literal's body, with two more parameters — what `yield` does with a state κ, and that state — and the state as result
+	var iterLit *ast.FuncLit
+	if sig.Results().Len() == 1 {
+		if rs, ok := sig.Results().At(0).Type().(*types.Signature); ok && rs.Params().Len() == 1 && rs.Results().Len() == 0 {
+			if ys, ok := rs.Params().At(0).Type().(*types.Signature); ok && ys.Results().Len() == 1 && len(body) == 1 {
+				if ret, ok := body[0].(*ast.ReturnStmt); ok && len(ret.Results) == 1 {
+					if lit, ok := ret.Results[0].(*ast.FuncLit); ok {
+						iterLit = lit
+						t.yieldVar = t.info.Defs[lit.Type.Params.List[0].Names[0]].(*types.Var)
+						t.accVar = types.NewVar(token.NoPos, t.pkg, "acc", types.Typ[types.Invalid])
+						var ats []string
+						for i := 0; i < ys.Params().Len(); i++ {
+							ats = append(ats, t.leanType(ys.Params().At(i).Type(), fd))
+						}
+						t.extraTy[t.yieldVar] = "(" + strings.Join(append(ats, "κ"), " → ") + " → GoM (Bool × κ))"
+						t.extraTy[t.accVar] = "κ"
+						t.names[t.yieldVar] = "yield"
+						t.used["yield"]++
+						body = lit.Body.List
+					}
+				}
+			}
+		}
+	}
+
+	// a pointer parameter that is assigned as a whole (m = m.Clone()) is a plain input from then on: what is written
+	// through it afterwards does not reach the caller's object. Nothing may be written through it before.
+	for i := 0; i < sig.Params().Len(); i++ {
+		p := sig.Params().At(i)
+		pt, ok := p.Type().(*types.Pointer)
+		if !ok {
+			continue
+		}
+		if _, basic := pt.Elem().Underlying().(*types.Basic); basic {
+			continue
+		}
+		first := token.NoPos
+		ast.Inspect(fd.Body, func(n ast.Node) bool {
+			if as, ok := n.(*ast.AssignStmt); ok {
+				for _, l := range as.Lhs {
+					if id, ok := l.(*ast.Ident); ok && t.info.ObjectOf(id) == types.Object(p) && (first == token.NoPos || as.Pos() < first) {
+						first = as.Pos()
+					}
+				}
+			}
+			return true
+		})
+		if first == token.NoPos {
+			continue
+		}
+		ast.Inspect(fd.Body, func(n ast.Node) bool {
+			if as, ok := n.(*ast.AssignStmt); ok && as.Pos() < first {
+				for _, l := range as.Lhs {
+					root := l
+					for {
+						switch d := root.(type) {
+						case *ast.SelectorExpr:
+							root = d.X
+							continue
+						case *ast.StarExpr:
+							root = d.X
+							continue
+						case *ast.ParenExpr:
+							root = d.X
+							continue
+						}
+						break
+					}
+					if id, ok := root.(*ast.Ident); ok && root != l && t.info.ObjectOf(id) == types.Object(p) {
+						die(t.pos(as), "pointer parameter %s is written through and later reassigned", p.Name())
+					}
+				}
+			}
+			return true
+		})
+		t.rebound[p] = true
+	}
+
 	t.findNilable(fd, sig)
 	var params []string
+	// method dictionaries of constrained type parameters
+	for i := 0; i < sig.TypeParams().Len(); i++ {
+		tp := sig.TypeParams().At(i)
+		if iface, ok := tp.Constraint().Underlying().(*types.Interface); ok {
+			for k := 0; k < iface.NumExplicitMethods(); k++ {
+				m := iface.ExplicitMethod(k)
+				ms := m.Type().(*types.Signature)
+				if ms.Params().Len() != 0 || ms.Results().Len() != 1 {
+					die(t.pos(fd), "constraint method %s", m.Name())
+				}
+				d := dictParam{tp: tp.Obj().Name(), method: m.Name(), tpIndex: i,
+					leanType: "(Nat → " + tp.Obj().Name() + " → GoM " + t.leanType(ms.Results().At(0).Type(), fd) + ")"}
+				t.dicts = append(t.dicts, d)
+				params = append(params, fmt.Sprintf("(%s_%s : %s)", d.tp, d.method, d.leanType))
+			}
+		}
+	}
 	if r := sig.Recv(); r != nil {
 		if _, ok := r.Type().(*types.Pointer); ok {
 			t.recv = r
@@ -1849,8 +2475,15 @@ func (t *tr) function(out *em, fd *ast.FuncDecl, leanName string) {
 		}
 		params = append(params, fmt.Sprintf("(%s : %s)", t.nameOf(p), t.varType(p, fd)))
 	}
+	if iterLit != nil {
+		params = append(params, fmt.Sprintf("(yield : %s)", t.extraTy[t.yieldVar]), fmt.Sprintf("(%s : κ)", t.nameOf(t.accVar)))
+		t.inouts = append(t.inouts, t.accVar)
+	}
 	// how callers use it
-	fs := &fsig{nres: sig.Results().Len()}
+	fs := &fsig{nres: sig.Results().Len(), iter: iterLit != nil, dicts: t.dicts, spread: sig.Params().Len()}
+	if iterLit != nil {
+		fs.nres = 0
+	}
 	mod := map[*types.Var]bool{}
 	for _, v := range t.assigned(fd.Body) {
 		mod[v] = true
@@ -1865,10 +2498,14 @@ func (t *tr) function(out *em, fd *ast.FuncDecl, leanName string) {
 		fs.paramIO = append(fs.paramIO, t.isIO(p))
 		_, isPtr := p.Type().(*types.Pointer)
 		fs.paramMod = append(fs.paramMod, t.isIO(p) && (mod[p] || !isPtr))
+		fs.paramNil = append(fs.paramNil, t.nilable[p])
 	}
 	t.sigs[leanName] = fs
-	for i := 0; i < sig.Results().Len(); i++ {
-		t.results = append(t.results, sig.Results().At(i))
+	if iterLit == nil {
+		for i := 0; i < sig.Results().Len(); i++ {
+			t.results = append(t.results, sig.Results().At(i))
+			fs.resNil = append(fs.resNil, t.nilable[sig.Results().At(i)])
+		}
 	}
 	out.line("/-- `%s` (%s) -/", leanName, t.fset.Position(fd.Pos()).Filename[strings.LastIndex(t.fset.Position(fd.Pos()).Filename, "/")+1:])
 	tps := ""
@@ -1886,10 +2523,13 @@ func (t *tr) function(out *em, fd *ast.FuncDecl, leanName string) {
 	for i := 0; i < sig.TypeParams().Len(); i++ {
 		tps += fmt.Sprintf("{%s : Type} [Inhabited %s] ", sig.TypeParams().At(i).Obj().Name(), sig.TypeParams().At(i).Obj().Name())
 	}
-	for i := 0; i < sig.Params().Len(); i++ {
-		if t.leanType(sig.Params().At(i).Type(), fd) == "(Writer σ)" && !strings.Contains(tps, "{σ : Type}") {
+	for _, p := range params {
+		if strings.Contains(p, "σ") && !strings.Contains(tps, "{σ : Type}") {
 			tps += "{σ : Type} "
 		}
+	}
+	if iterLit != nil {
+		tps += "{κ : Type} "
 	}
 	t.tpDecl = tps
 	out.line("def %s %s(fuel : Nat) %s : GoM (%s) := do", leanName, tps, strings.Join(params, " "), t.rho())
@@ -1903,10 +2543,100 @@ func (t *tr) function(out *em, fd *ast.FuncDecl, leanName string) {
 			out.line("let %s : %s := %s", t.nameOf(r), t.varType(r, fd), val)
 		}
 	}
-	t.stmts(out, fd.Body.List, &kont{fin: true}, nil)
+	t.stmts(out, body, &kont{fin: true}, nil)
 	out.ind--
 	out.line("")
 	t.known[leanName] = true
+}
+
+// iterCall: q.each(a)(func(j int, m T) bool { … }) — the literal becomes a function of its parameters and of the
+// variables it assigns outside itself (its state), which the iterator threads through the calls
+func (t *tr) iterCall(e *em, inner *ast.CallExpr, v *ast.CallExpr) string {
+	sel, ok := inner.Fun.(*ast.SelectorExpr)
+	if !ok || len(v.Args) != 1 {
+		die(t.pos(v), "call of a call")
+	}
+	lit, ok := v.Args[0].(*ast.FuncLit)
+	if !ok {
+		die(t.pos(v), "an iterator applied to something other than a function literal")
+	}
+	sl, ok := t.info.Selections[sel]
+	if !ok || sl.Kind() != types.MethodVal || len(sl.Index()) != 1 {
+		die(t.pos(v), "iterator %s", types.ExprString(inner.Fun))
+	}
+	recvT := sl.Recv()
+	if p, ok := recvT.(*types.Pointer); ok {
+		recvT = p.Elem()
+	}
+	mname := recvT.(*types.Named).Obj().Name() + "_" + sel.Sel.Name
+	fs := t.sigs[mname]
+	if fs == nil || !fs.iter {
+		die(t.pos(v), "call of %s (not a translated iterator)", mname)
+	}
+	if t.inClosure {
+		die(t.pos(v), "an iterator used inside a function literal")
+	}
+	// the literal's state: what it assigns outside itself
+	isParam := map[types.Object]bool{}
+	var pnames, ptys []string
+	for _, f := range lit.Type.Params.List {
+		for _, id := range f.Names {
+			o := t.info.Defs[id]
+			isParam[o] = true
+			pnames = append(pnames, t.nameOf(o))
+			ptys = append(ptys, t.varType(o.(*types.Var), lit))
+		}
+	}
+	var caps []*types.Var
+	for _, c := range t.assigned(lit.Body) {
+		if !isParam[c] {
+			caps = append(caps, c)
+		}
+	}
+	var cn, ct []string
+	for _, c := range caps {
+		cn = append(cn, t.nameOf(c))
+		ct = append(ct, t.varType(c, lit))
+	}
+	kappa := "Unit"
+	if len(ct) > 0 {
+		kappa = strings.Join(ct, " × ")
+	}
+	recv := t.expr(e, sel.X)
+	args := []string{"fuel", recv}
+	args = append(args, t.argList(e, fs, inner.Args)...)
+	fn := t.fresh("lit")
+	st := t.fresh("cst")
+	e.line("let %s : %s → (%s) → GoM (Bool × (%s)) := fun %s %s => do", fn, strings.Join(ptys, " → "), kappa, kappa, strings.Join(pnames, " "), st)
+	// the literal's body, as a function returning (continue?, state)
+	saveRes, saveIO, saveRecv, saveY, saveA := t.results, t.inouts, t.recv, t.yieldVar, t.accVar
+	t.results = []*types.Var{types.NewVar(token.NoPos, t.pkg, "", types.Typ[types.Bool])}
+	t.inouts, t.recv, t.inClosure = caps, nil, true
+	sub := &em{ind: e.ind + 2}
+	for i, n := range cn {
+		sub.line("let %s := %s", n, tupleProj(st, i, len(cn)))
+	}
+	t.stmts(sub, lit.Body.List, &kont{fin: true}, nil)
+	e.sb.WriteString(sub.sb.String())
+	t.results, t.inouts, t.recv, t.yieldVar, t.accVar, t.inClosure = saveRes, saveIO, saveRecv, saveY, saveA, false
+	it := t.fresh("it")
+	init := "()"
+	if len(cn) > 0 {
+		init = t.tuple(cn)
+	}
+	e.line("let %s ← %s %s %s", it, mname, strings.Join(args, " ")+" "+fn, init)
+	comps := 1
+	if fs.recvIO {
+		comps = 2
+		if fs.recvMod {
+			t.assignTo(e, sel.X, tupleProj(it, 0, comps), false)
+		}
+	}
+	accs := tupleProj(it, comps-1, comps)
+	for i, c := range caps {
+		e.line("let %s : %s := %s", t.nameOf(c), t.varType(c, lit), tupleProj("("+accs+")", i, len(caps)))
+	}
+	return "()"
 }
 
 func (t *tr) structDecl(out *em, name string, st *types.Struct) {
@@ -1914,20 +2644,25 @@ func (t *tr) structDecl(out *em, name string, st *types.Struct) {
 		out.line("structure %s %s where", name, t.genericBinders[name])
 		for i := 0; i < st.NumFields(); i++ {
 			f := st.Field(i)
-			out.line("  %s : %s", fieldName(f.Name()), t.leanType(f.Type(), nil))
+			out.line("  %s : %s", fieldName(f.Name()), t.fieldType(f, nil))
 		}
+		out.line("deriving DecidableEq, Repr, Inhabited")
 		out.line("")
 		return
 	}
-	out.line("structure %s where", name)
-	fn := false
+	if t.sigmaStructs[name] {
+		out.line("structure %s (σ : Type) where", name)
+	} else {
+		out.line("structure %s where", name)
+	}
+	fn := t.sigmaStructs[name]
 	for i := 0; i < st.NumFields(); i++ {
 		f := st.Field(i)
-		ty := t.leanType(f.Type(), nil)
+		ty := t.fieldType(f, nil)
 		if nilableFields[name+"."+f.Name()] {
 			ty = "(Option " + ty + ")"
 		}
-		if strings.Contains(ty, "→") {
+		if strings.Contains(ty, "→") || strings.Contains(ty, "GoM ") {
 			fn = true
 		}
 		out.line("  %s : %s", fieldName(f.Name()), ty)
@@ -1982,11 +2717,11 @@ func main() {
 			files = append(files, af)
 		}
 		info := &types.Info{Types: map[ast.Expr]types.TypeAndValue{}, Defs: map[*ast.Ident]types.Object{},
-			Uses: map[*ast.Ident]types.Object{}, Selections: map[*ast.SelectorExpr]*types.Selection{}}
+			Uses: map[*ast.Ident]types.Object{}, Selections: map[*ast.SelectorExpr]*types.Selection{}, Instances: map[*ast.Ident]types.Instance{}}
 		conf := types.Config{Importer: chain{checked, importer.ForCompiler(fset, "source", nil)}, Error: func(error) {}} // a partial package: unresolved names elsewhere are not our concern
 		pkg, _ := conf.Check(tg.dir, fset, files, info)
 		checked["github.com/tmaxmax/go-sse/"+tg.dir] = pkg
-		t := &tr{fset: fset, info: info, pkg: pkg, known: known, nilable: map[types.Object]bool{}, structs: map[string]*types.Struct{}, generic: map[string]int{}, genericBinders: map[string]string{}, sigs: sigs, files: files}
+		t := &tr{fset: fset, info: info, pkg: pkg, known: known, nilable: map[types.Object]bool{}, structs: map[string]*types.Struct{}, generic: map[string]int{}, genericBinders: map[string]string{}, sigs: sigs, files: files, sigmaStructs: map[string]bool{}, joins: tg.joins}
 		decls := map[string]*ast.FuncDecl{}
 		for _, f := range files {
 			for _, d := range f.Decls {
@@ -2053,6 +2788,13 @@ func main() {
 				if fn, ok := ft.(*types.Named); ok {
 					if _, ok := t.structs[fn.Obj().Name()]; ok {
 						emit(fn.Obj().Name())
+					}
+					for k := 0; k < fn.TypeArgs().Len(); k++ { // queue[messageWithTopics]: the argument first
+						if an, ok := fn.TypeArgs().At(k).(*types.Named); ok {
+							if _, ok := t.structs[an.Obj().Name()]; ok {
+								emit(an.Obj().Name())
+							}
+						}
 					}
 				}
 			}
